@@ -76,6 +76,11 @@ def main(tier, seed, replay=None):
                                    {"name": "limit", "in": "query", "schema": {"type": "integer"}}],
                    "op_params": [{"name": "version", "in": "header", "schema": {"type": "string"}}, {"name": "shared", "in": "query", "schema": {"type": "integer"}},
                                  {"name": "limit", "in": "query", "schema": {"type": "string"}}, {"name": "X-Only", "in": "header", "schema": {"type": "boolean"}}]}])
+    # deterministic: query names that differ from their Rust member names; a string payload declared as JSON
+    cases.append([{"template": "/find", "method": "get", "id": "namesx", "responses": [("200", [("application/json", {"type": "string"})]), ("404", [("application/json", c04.REF_ERR)])],
+                   "op_params": [{"name": "pageSize", "in": "query", "schema": {"type": "integer"}}, {"name": "sort-by", "in": "query", "required": True, "schema": {"type": "string"}},
+                                 {"name": "filter[status]", "in": "query", "schema": {"type": "string"}}, {"name": "q", "in": "query", "schema": {"type": "string"}},
+                                 {"name": "type", "in": "query", "schema": {"type": "string"}}]}])
     # deterministic: array query parameters in every style, with and without an explicit `explode`
     A = {"type": "array", "items": {"type": "string"}}
     cases.append([{"template": "/search", "method": "get", "id": "stylesx", "responses": [("200", [])],
@@ -182,6 +187,16 @@ def main(tier, seed, replay=None):
                 n_eval += 1
                 if want not in fieldnames:
                     viol.append((ops, f"{o['method'].upper()} {o['template']}: declared {loc} parameter {nm!r} is not a member of the request's {sname.lower()} struct (members {fieldnames})"))
+                if want in fieldnames and loc == "query":
+                    # the wire name: the member must (de)serialise under the parameter's exact name
+                    fld0 = next(f for st in structs for f in st["fields"] if f["name"] == want)
+                    attrs0 = " ".join(str(a.get("attr")) for a in fld0["attrs"])
+                    mren = re.search(r'rename\s*=\s*"((?:[^"\\]|\\.)*)"', attrs0)
+                    wire = mren.group(1) if mren else want.replace("r#", "")
+                    if wire != nm:
+                        viol.append((ops, f"{o['method'].upper()} {o['template']}: query parameter {nm!r} is read from the key {wire!r} (member {want}, attributes {attrs0 or 'none'}): `?{nm}=v` does not reach the handler"))
+                if want not in fieldnames:
+                    pass
                 elif loc == "query" and prm["schema"].get("type") == "array":
                     # a non-exploded array arrives as ONE delimited value: the member needs the style's separator adapter;
                     # explode defaults to true only for style form (OpenAPI 3.1 §4.8.12.2)
@@ -216,6 +231,9 @@ def main(tier, seed, replay=None):
                     dis.append(f"status: key {key} impl {code} model {model_status[key]}")
                 if arm["encoder"] and arm["encoder"] != "axum::Json":
                     dis.append(f"encoder {arm['encoder']}")
+                    jsonish = [ct for o in ops for k, shape in o["responses"] if k == key for ct, sc in shape if ct.endswith("json") and sc is not None]
+                    if jsonish:
+                        viol.append((ops, f"variant {arm['variant']} (key {key}) declares {jsonish[0]} but its payload is sent with the encoder `{arm['encoder']}` instead of JSON"))
             # media type (F20): a variant whose declared content is not JSON-like but is sent as axum::Json
         for o in ops:
             for k, shape in o["responses"]:
